@@ -85,7 +85,8 @@ theorem Good.of_lookup {s : State} {m : Mtp} {p : Pool} {a : Addr} {id : Nat} (h
 theorem closeMsg_good {fx : Fixes} (hfx : fx.iipCopy = true) {s : State} {a : Addr} {id : Nat} {r : Nat × W}
     (hok : OKp s) (hwf : WFp s) (h : closeMsg fx s a id = .ok r) :
     OKp r.2.s ∧ WFp r.2.s ∧ getMtpL r.2.s.mtps (a, id) = none ∧ r.2.s.mtpCount = s.mtpCount ∧
-      (∀ k, k ≠ (a, id) → getMtpL r.2.s.mtps k = getMtpL s.mtps k) := by
+      (∀ k, k ≠ (a, id) → getMtpL r.2.s.mtps k = getMtpL s.mtps k) ∧
+      (∃ sym, ∀ y, y ≠ sym → getPoolL r.2.s.pools y = getPoolL s.pools y) := by
   unfold closeMsg at h
   obtain ⟨m, hm, h⟩ := bind_ok h
   obtain ⟨_, _, h⟩ := bind_ok h
@@ -99,15 +100,20 @@ theorem closeMsg_good {fx : Fixes} (hfx : fx.iipCopy = true) {s : State} {a : Ad
   rw [k1] at this
   simp only [] at this
   rw [hk] at this
-  refine ⟨this.1, this.2.1, this.2.2.1, this.2.2.2.2.2.2.trans f1.count, ?_⟩
-  intro k hk'
-  rw [this.2.2.2.1, getMtpL_del_other _ hk']
-  exact f1.mtps k (by rw [hk]; exact hk')
+  obtain ⟨_, _, sy1, _⟩ := interestBlock_good hfx hg hw1
+  refine ⟨this.1, this.2.1, this.2.2.1, this.2.2.2.2.2.2.trans f1.count, ?_, ⟨p.sym, ?_⟩⟩
+  · intro k hk'
+    rw [this.2.2.2.1, getMtpL_del_other _ hk']
+    exact f1.mtps k (by rw [hk]; exact hk')
+  · intro y hy
+    rw [this.2.2.2.2.1, getPoolL_setPoolL_other _ (by rw [this.2.2.2.2.2.1, sy1]; exact hy)]
+    exact f1.pools y hy
 
 theorem adminCloseMsg_good {fx : Fixes} (hfx : fx.iipCopy = true) {s : State} {signer a : Addr} {id : Nat} {t : Bool} {r : Nat × W}
     (hok : OKp s) (hwf : WFp s) (h : adminCloseMsg fx s signer a id t = .ok r) :
     OKp r.2.s ∧ WFp r.2.s ∧ getMtpL r.2.s.mtps (a, id) = none ∧ s.admins.contains signer = true ∧
-      r.2.s.mtpCount = s.mtpCount ∧ (∀ k, k ≠ (a, id) → getMtpL r.2.s.mtps k = getMtpL s.mtps k) := by
+      r.2.s.mtpCount = s.mtpCount ∧ (∀ k, k ≠ (a, id) → getMtpL r.2.s.mtps k = getMtpL s.mtps k) ∧
+      (∃ sym, ∀ y, y ≠ sym → getPoolL r.2.s.pools y = getPoolL s.pools y) := by
   unfold adminCloseMsg at h
   obtain ⟨_, hadm, h⟩ := bind_ok h
   obtain ⟨m, hm, h⟩ := bind_ok h
@@ -119,7 +125,7 @@ theorem adminCloseMsg_good {fx : Fixes} (hfx : fx.iipCopy = true) {s : State} {s
   have := forceCloseLong_good hfx hg h
   simp only [] at this
   rw [hk] at this
-  exact ⟨this.1, this.2.1, this.2.2.1, ensure_ok hadm, this.2.2.2.1.count, this.2.2.2.1.mtps⟩
+  exact ⟨this.1, this.2.1, this.2.2.1, ensure_ok hadm, this.2.2.2.1.count, this.2.2.2.1.mtps, ⟨p.sym, this.2.2.2.1.pools⟩⟩
 
 end Sif.Margin
 
